@@ -10,8 +10,6 @@ CONSTANTS
   SizeFrom = "lock"
 INVARIANTS
   TypeOK
-  ToolIsDeletable
-  RemovedDeletable
   OnlyDeletions
   ServablePub
   ServableLock
